@@ -29,7 +29,8 @@ RULE = (
     "(a missing/outdated row is a harness error, exit 2). A case = (method, one generated value per parameter, which "
     "defaulted parameters are omitted, how many leading arguments are passed positionally (the rest by keyword), a logged "
     "cold/sync/hot source timeline shaped for the method (numbers, dicts, tuples, notifications, inner observables, a "
-    "connectable), probe scenario: inner-subscription policy for window/group outputs, optional dispose tick, connect tick "
+    "connectable), the virtual clock (TestScheduler, or HistoricalScheduler with timedelta durations and absolute datetime "
+    "arguments for delay / delay_subscription / skip_until_with_time / take_until_with_time), probe scenario: inner-subscription policy for window/group outputs, optional dispose tick, connect tick "
     "for connectables). The case is executed twice on fresh identical labs: source.<method>(args) and "
     "source.pipe(ops.<same name>(same args)) (keyword names mapped by position onto the operator's own parameter names; "
     "`do` is compared with ops.do_action as its docstring says; an omitted fluent default is passed explicitly only where "
@@ -232,6 +233,12 @@ def _(ctx, slot, d):
     return ctx.lab.rel(d)
 
 
+@kind("durabs", st.fixed_dictionaries({"d": st.integers(0, 8), "abs": st.booleans()}))
+def _(ctx, slot, spec):
+    # absolute form: a datetime on the HistoricalScheduler clock (on the TestScheduler clock lab.abs is the bare number)
+    return ctx.lab.abs(spec["d"]) if spec["abs"] else ctx.lab.rel(spec["d"])
+
+
 @kind("dur1", st.integers(1, 6))
 def _(ctx, slot, d):
     return ctx.lab.rel(d)
@@ -382,8 +389,8 @@ skip_with_time: duration=dur, scheduler=sched
 take_with_time: duration=dur, scheduler=sched
 skip_last_with_time: duration=dur, scheduler=sched
 take_last_with_time: duration=dur, scheduler=sched
-skip_until_with_time: start_time=dur, scheduler=sched
-take_until_with_time: end_time=dur, scheduler=sched
+skip_until_with_time: start_time=durabs, scheduler=sched
+take_until_with_time: end_time=durabs, scheduler=sched
 count: predicate=optpred
 sum: key_mapper=optnumkey | shape=num
 average: key_mapper=optnumkey | shape=num
@@ -424,7 +431,7 @@ pluck_attr: attr=attr | shape=attr
 expand: mapper=expandmapper
 exclusive: | shape=obs
 do_action: on_next=optcb, on_error=optcb, on_completed=optcb
-delay: duetime=dur, scheduler=sched
+delay: duetime=durabs, scheduler=sched
 timeout: duetime=dur1, other=optsrc, scheduler=sched
 timestamp: scheduler=sched
 observe_on: scheduler=sched!
@@ -432,7 +439,7 @@ subscribe_on: scheduler=sched!
 materialize:
 dematerialize: | shape=notif
 time_interval: scheduler=sched
-delay_subscription: duetime=dur, scheduler=sched
+delay_subscription: duetime=durabs, scheduler=sched
 do: on_next=optcb, on_error=optcb, on_completed=optcb | piped=do_action
 do_while: condition=cond
 while_do: condition=cond
@@ -681,7 +688,7 @@ def _future_state(f):
 
 
 def _world(case, form, fparams):
-    lab = Lab(budget=6000)
+    lab = Lab(case.get("clock", "test"), tick_s=1.0, budget=6000)
     ctx = Ctx(lab, case)
     row = TABLE[case["m"]]
     vals, given = _normalise(case)
@@ -833,6 +840,11 @@ def _run_form(case, fparams):
     pos, kw, var = _plan(case, fparams, vals, given)
     explicit = len(pos) + len(kw) + (1 if var and vals.get(var) else 0)
     cls = ["m:" + m]
+    if case.get("clock", "test") == "hist":
+        cls.append("clock:historical")
+    for pn, k in TABLE[m].params:
+        if k == "durabs" and (pn in pos or pn in kw) and vals[pn]["abs"]:
+            cls.append("abs-time:" + case.get("clock", "test"))
     if kw:
         cls.append("form:keyword")
     if pos:
@@ -918,12 +930,15 @@ def _run_each(case):
 # strategies
 
 
+_TIER = {"max_len": 4}
+
+
 def _case_strategy(name, params):
     row = TABLE[name]
     kinds = dict(row.params)
     n_pk = sum(1 for p in params if p.kind in (p.POSITIONAL_ONLY, p.POSITIONAL_OR_KEYWORD))
     needs_inners = row.shape in ("obs", "@merge")
-    src = st.fixed_dictionaries({"kind": st.sampled_from(["cold", "cold", "sync", "hot"]), "tl": timelines(max_len=4, max_dt=3, values=(HASHABLE_NAMES if row.shape == "hash" else NAMES))})
+    src = st.fixed_dictionaries({"kind": st.sampled_from(["cold", "cold", "sync", "hot"]), "tl": timelines(max_len=_TIER["max_len"], max_dt=3, values=(HASHABLE_NAMES if row.shape == "hash" else NAMES))})
     inner_pol = st.one_of(
         st.just({"mode": "now"}),
         st.fixed_dictionaries({"mode": st.just("late"), "d": st.integers(0, 3)}),
@@ -933,6 +948,7 @@ def _case_strategy(name, params):
     )
     d = {
         "m": st.just(name),
+        "clock": st.sampled_from(["test", "test", "hist"]),
         "vals": st.fixed_dictionaries({p.name: KINDS[kinds[p.name]][0] for p in params}),
         "given": st.fixed_dictionaries({p.name: (st.just(True) if (p.default is p.empty and p.kind is not p.VAR_POSITIONAL) else st.just(True) if p.kind is p.VAR_POSITIONAL else st.booleans()) for p in params}),
         "npos": st.integers(0, n_pk),
@@ -947,6 +963,7 @@ def _case_strategy(name, params):
 def checks(tier):
     found = fluent_methods()
     _validate(found)
+    _TIER["max_len"] = 4 if tier == "quick" else 6
     ms = {name: params for _, name, params in found}
     _METHODS.clear()
     _METHODS.update(ms)
